@@ -13,7 +13,7 @@ PROPS = {
     "C16": {
         "modules": ["Resolved.Props.C16"],
         "streams": [
-            {"name": "name", "quick": 20000, "thorough": 400000},
+            {"name": "name", "quick": 20000, "thorough": 3000000},
             {"name": "wire-decode", "quick": 8000, "thorough": 100000},
             {"name": "tables", "quick": 1, "thorough": 1, "shards": 1, "fixed": True},
         ],
@@ -42,7 +42,7 @@ PROPS = {
     "C04": {
         "modules": ["Resolved.Props.C04"],
         "streams": [
-            {"name": "wire-encode", "quick": 3000, "thorough": 60000, "extra_quick": [16], "extra_thorough": [400]},
+            {"name": "wire-encode", "quick": 3000, "thorough": 200000, "extra_quick": [16], "extra_thorough": [400]},
             # decode -> encode -> decode on arbitrary decodable byte strings (suffix compression, chains)
             {"name": "wire-decode", "quick": 12000, "thorough": 200000},
             {"name": "tables", "quick": 1, "thorough": 1, "shards": 1, "fixed": True},
@@ -52,13 +52,13 @@ PROPS = {
     },
     "C02": {
         "modules": ["Resolved.Props.C02"],
-        "streams": [{"name": "zone-resolve", "quick": 30000, "thorough": 600000}],
+        "streams": [{"name": "zone-resolve", "quick": 30000, "thorough": 6000000}],
         "trivial_tags": [r":bad-op", r"none/outside"],
         "assumptions": ["D1: zones holding records strictly beneath a delegation point are outside the spec oracle (still in Impl-vs-Model)"],
     },
     "C12": {
         "modules": ["Resolved.Props.C12"],
-        "streams": [{"name": "zones-merge", "quick": 20000, "thorough": 400000},
+        "streams": [{"name": "zones-merge", "quick": 20000, "thorough": 2000000},
                     {"name": "hosts", "quick": 30000, "thorough": 600000},
                     {"name": "config-load", "quick": 2000, "thorough": 60000}],
         "trivial_tags": [r":bad-op", r":nozone"],
@@ -66,7 +66,7 @@ PROPS = {
     },
     "C05": {
         "modules": ["Resolved.Props.C05"],
-        "streams": [{"name": "cache", "quick": 4000, "thorough": 80000}],
+        "streams": [{"name": "cache", "quick": 4000, "thorough": 800000}],
         "trivial_tags": [r":bad-op", r"cache\.hist.*:len0/"],
         "assumptions": [
             "the real monotonic clock is replaced by the virtual clock hook (cfg resolved_verif)",
@@ -76,7 +76,7 @@ PROPS = {
     },
     "C15": {
         "modules": ["Resolved.Props.C15"],
-        "streams": [{"name": "cache", "quick": 4000, "thorough": 80000},
+        "streams": [{"name": "cache", "quick": 4000, "thorough": 800000},
                     {"name": "cache-threads", "quick": 40, "thorough": 600, "shards": 2, "timeout_quick": 180, "timeout_thorough": 1800}],
         "trivial_tags": [r":bad-op", r"cache\.hist.*:len0/"],
         "assumptions": [
@@ -95,24 +95,24 @@ PROPS = {
     },
     "C01": {
         "modules": ["Resolved.Props.C01"],
-        "streams": [{"name": "resolve-local", "quick": 6000, "thorough": 120000},
-                    {"name": "resolve-universe", "quick": 800, "thorough": 20000}],
+        "streams": [{"name": "resolve-local", "quick": 6000, "thorough": 400000},
+                    {"name": "resolve-universe", "quick": 800, "thorough": 200000}],
         "trivial_tags": [r":bad-op"],
         "assumptions": ["the cache clock is frozen during one resolution (virtual clock hook)",
                         "D5: AA is claimed for replies whose whole chain stays in authoritative zones"],
     },
     "C10": {
         "modules": ["Resolved.Props.C10", "Resolved.Props.C10Machine"],
-        "streams": [{"name": "resolve-local", "quick": 6000, "thorough": 120000},
-                    {"name": "resolve-universe", "quick": 800, "thorough": 20000},
+        "streams": [{"name": "resolve-local", "quick": 6000, "thorough": 400000},
+                    {"name": "resolve-universe", "quick": 800, "thorough": 200000},
                     {"name": "resolve-faults", "quick": 1200, "thorough": 30000},
                     {"name": "upstream", "quick": 8000, "thorough": 200000}],
         "trivial_tags": [r":bad-op"],
         "assumptions": ["D7: upstream servers list alias chains in chain order and answer with records of the asked type"],
     },
     "C07": {
-        "modules": ["Resolved.Props.C07", "Resolved.Props.C06"],
-        "streams": [{"name": "resolve-universe", "quick": 2400, "thorough": 60000}],
+        "modules": ["Resolved.Props.C07", "Resolved.Props.C07Universe", "Resolved.Props.C06"],
+        "streams": [{"name": "resolve-universe", "quick": 2400, "thorough": 200000}],
         "trivial_tags": [r":bad-op", r"/x0$"],
         "assumptions": ["D8: RRsets carry one TTL; answers compared up to TTL and order inside the final RRset",
                         "with several nameservers per zone the referral host order comes from a HashSet: those cases are judged by the specification oracle only"],
@@ -120,14 +120,14 @@ PROPS = {
     "C08": {
         "modules": ["Resolved.Props.C08"],
         "streams": [{"name": "resolve-faults", "quick": 3000, "thorough": 80000},
-                    {"name": "resolve-universe", "quick": 600, "thorough": 10000},
+                    {"name": "resolve-universe", "quick": 600, "thorough": 40000},
                     {"name": "upstream", "quick": 8000, "thorough": 200000}],
         "trivial_tags": [r":bad-op", r"/x0$"],
         "assumptions": ["tokio's timeout/sleep on the paused clock stand for the real timers; that a future is cancelled at an await point is tokio's contract"],
     },
     "C18": {
         "modules": ["Resolved.Props.C18"],
-        "streams": [{"name": "resolve-universe", "quick": 2400, "thorough": 60000},
+        "streams": [{"name": "resolve-universe", "quick": 2400, "thorough": 200000},
                     {"name": "resolve-faults", "quick": 800, "thorough": 20000},
                     # the real binary in forwarding mode (command-line glue, real sockets): a mock forwarder
                     # and a decoy on the recursive upstream port
@@ -183,7 +183,7 @@ PROPS = {
     },
     "C11": {
         "modules": ["Resolved.Props.C11"],
-        "streams": [{"name": "ztext", "quick": 160000, "thorough": 3000000}],
+        "streams": [{"name": "ztext", "quick": 160000, "thorough": 12000000}],
         "trivial_tags": [r":bad-op", r"ztext\.rendered:ambiguous", r"ztext\.parse:err/MissingType"],
         "stated_not_proved": [],
         "assumptions": ["see PROPS_ENTRY.txt"],
@@ -223,7 +223,7 @@ PROPS = {
                      'too (noNameError)'],
      'modules': ['Resolved.Props.C11'],
      'stated_not_proved': [],
-     'streams': [{'name': 'ztext', 'quick': 160000, 'thorough': 3000000}],
+     'streams': [{'name': 'ztext', 'quick': 160000, 'thorough': 12000000}],
      'trivial_tags': [':bad-op', 'ztext\\.rendered:ambiguous', 'ztext\\.parse:err/MissingType']},
     "C13": {'assumptions': ['precondition of the round trip (D-list of DESIGN section C13, `ZoneTextOK` / driver `specWF`): '
                      'labels ASCII without `.`, no name label starting with `*` (API zones), no unknown record types, no '
